@@ -1117,6 +1117,8 @@ pub mod verif {
         image.try_take_blended()
     }
 
+    pub use crate::blend::verif as blend_fns;
+
     /// Region padding arithmetic of `util` (crate-private) for the harness crate.
     pub mod region_fns {
         use crate::Region;
